@@ -14,6 +14,14 @@ def scenarios(rng, tier):
             s.start('cells_s%d_el%d' % (st, el)); s.op('mk 0'); s.op('adv 1000000')
             for inp in range(-128, 256):
                 s.op('set_map 0', st, 1000 - el); s.op('ss_map 0', inp)
+    # an input that changes nothing still counts as input: two gaps each inside the time-out, together beyond it
+    for st, tmo in ((1, 5), (2, 30)):
+        for x in (1, 5, 7, 10, 12, 200, -2, 0, 4, 6, 11, 9):
+            s.start('gap_s%d_x%d' % (st, x)); s.op('mk 0'); s.op('adv', 1000 + rng.randrange(9000)); s.op('ss_map 0 0')
+            if st == 2: s.op('ss_map 0 2')
+            for rep in range(3):
+                s.op('adv', (tmo - rng.choice([0, 1])) * 1000); s.op('ss_map 0', x)
+                s.op('adv', (tmo - rng.choice([0, 1, 2])) * 1000); s.op('ss_map 0', rng.choice([6, 4, 11, 1]) if st == 1 else rng.choice([4, 1, 7]))
     nseq = 30 if tier == 'quick' else 1000
     for k in range(nseq):
         s.start('seq_%d' % k); s.op('mk 0'); s.op('adv', 1000 + rng.randrange(5000))
